@@ -48,7 +48,20 @@ CbScript(k, a, p) ==
      BNewOp, BSetCbOp(IF k.alg = NONE THEN <<CbKey(0), CbAlg(a)>> ELSE <<CbKey(0)>>), GenerateOp(0),
      CNewOp, CSetCbOp(IF k.alg = NONE THEN <<CbKey(1), CbAlg(a)>> ELSE <<CbKey(1)>>), VerifyOp([src |-> "slot", slot |-> 0]),
      VerifyOp(Tok(a, <<>>, Pm, Sig("valid", a, Pub(k)))) >>
-C09Scripts == { Script(ka[1], ka[2], p) : ka \in Pairs, p \in Providers }
+\* one checker, the same key twice: first under the algorithm it is made for (accepted), then under an algorithm
+\* that asks for more than the key has - with a token genuinely signed with that hash by that key.  The floor is
+\* a property of the (key, algorithm) pair of the call, whatever the same key object passed before.
+ReuseKeys == { <<AsymKey("p256a", 1, NONE, NONE), "ES256">>, <<AsymKey("p384a", 1, NONE, NONE), "ES384">>, <<AsymKey("k256a", 1, NONE, NONE), "ES256K">>,
+               <<OctKey(32, "a", NONE, NONE), "HS256">>, <<OctKey(48, "a", NONE, NONE), "HS384">> }
+Bigger(n) == IF n = "ES256" \/ n = "ES256K" THEN {"ES384", "ES512"} ELSE IF n = "ES384" THEN {"ES512", "ES256"}
+             ELSE IF n = "HS256" THEN {"HS384", "HS512"} ELSE {"HS512"}
+Via(f, a) == IF f = "setkey" THEN CSetKeyOp(a, 1) ELSE CSetCbOp(<<CbKey(1), CbAlg(a)>>)
+ReuseScripts ==
+  UNION { { << OpsOp(p), LoadOp(<<kn[1], Pub(kn[1])>>), CNewOp, Via(f1, kn[2]), VerifyOp(Tok(kn[2], <<>>, Pm, Sig("valid", kn[2], Pub(kn[1])))),
+               Via(f2, a), VerifyOp(Tok(a, <<>>, Pm, Sig("valid", a, Pub(kn[1])))), VerifyOp(Tok(kn[2], <<>>, Pm, Sig("valid", kn[2], Pub(kn[1])))) >>
+            : a \in Bigger(kn[2]), f1 \in {"setkey", "cb"}, f2 \in {"setkey", "cb"} }
+          : kn \in ReuseKeys, p \in Providers }
+C09Scripts == { Script(ka[1], ka[2], p) : ka \in Pairs, p \in Providers } \cup ReuseScripts
               \cup { CbScript(ka[1], ka[2], p) : ka \in Pairs, p \in Providers }
               \cup { CrossScript(ka[1], ka[2], p) : ka \in CrossPairs, p \in Providers }
 MCSpec == ISpecWith(C09Scripts)
